@@ -267,3 +267,6 @@ def single_transport(fl: int, ws: bool, n_a: int, n_b: int, n_c: int, overlap: b
     post: _ == ''
     """
     return verdict(untraced(_single_transport, fl, ws, n_a, n_b, n_c, overlap))
+
+
+from vf.validate.stubs import ALL as VALIDATE  # noqa: E402  (stub-vs-real conformance, run before the obligations)
